@@ -59,24 +59,15 @@ Theorem C14_block_duration_attained : forall s b, b <> [] ->
   exists i, In i b /\ block_duration s b = get_operation_duration s (iname i).
 Proof. exact block_duration_attained. Qed.
 
-(* "measurements included": REFUTED for the code as it is (finding F6) -- the duration table is keyed "MZ", Stim reports "M" *)
-Theorem C14_block_max_includes_meas_refuted :
-  exists s m c b i, In b (split_blocks "TICK" (dress_measurements s m c)) /\ In i b /\ iname i = "M"
-                    /\ block_duration s b < duration_mz (s_durations s).
-Proof. exact (block_max_excludes_meas_unkeyed eq_refl eq_refl). Qed.
-Theorem C14_idle_measurement_block_refuted :
-  exists s m c, 0 < duration_mz (s_durations s) /\
-    dress s m c = [idle_chan s m 0 0; MkI "M" [TQ 0] (AErr (qp_assignment_error (spec_params s m 0))); idle_chan s m 0 0].
-Proof. exact (f6_refuted eq_refl eq_refl eq_refl). Qed.
-(* what does hold: every instruction whose reported name has a table entry is included, and measurements are included as
-   soon as the table has the measurement duration under the reported name *)
-Theorem C14_block_max_includes_keyed_partial : forall s b i d,
+(* "measurements included": the duration table carries the measurement duration under the name Stim reports ("M"), so the
+   block maximum is at least the measurement duration for every block containing a measurement.  (Before the fix of F6 the
+   table was keyed "MZ" and this statement was refuted; see known_findings.json.) *)
+Theorem C14_block_max_includes_meas :
+  forall s b i, In i b -> iname i = "M" -> duration_mz (s_durations s) <= block_duration s b.
+Proof. exact (block_max_includes_meas_keyed (fun d => eq_refl)). Qed.
+Theorem C14_block_max_includes_keyed : forall s b i d,
   In i b -> assoc String.eqb (iname i) (duration_mapper (s_durations s)) = Some d -> d <= block_duration s b.
 Proof. exact block_max_includes_keyed. Qed.
-Theorem C14_block_max_includes_meas_partial :
-  (forall d, assoc String.eqb "M" (duration_mapper d) = Some (duration_mz d)) ->
-  forall s b i, In i b -> iname i = "M" -> duration_mz (s_durations s) <= block_duration s b.
-Proof. exact block_max_includes_meas_keyed. Qed.
 
 (* the T1/T2 formula over the reals *)
 Theorem C14_pauli_closed_form : forall t t1 t2 : R,
@@ -108,11 +99,9 @@ Print Assumptions C14_all_targets.
 Print Assumptions C14_all_targets_sorted.
 Print Assumptions C14_block_duration_ge.
 Print Assumptions C14_block_duration_attained.
-Print Assumptions C14_block_max_includes_meas_refuted.
-Print Assumptions C14_idle_measurement_block_refuted.
-Print Assumptions C14_block_max_includes_keyed_partial.
-Print Assumptions C14_block_max_includes_meas_partial.
 Print Assumptions C14_pauli_closed_form.
 Print Assumptions C14_pauli_bounds.
 Print Assumptions C14_pauli_unclamped.
 Print Assumptions C14_dressed_channels_bounded.
+Print Assumptions C14_block_max_includes_meas.
+Print Assumptions C14_block_max_includes_keyed.
